@@ -37,7 +37,7 @@ def run(tier, seed):
             faulted = set()
             if i % 3 == 1:
                 faulted = c10.add_conflicts(r, sspec, dspec)
-            fl = ew.gen_flags(r)
+            fl = ew.gen_flags(r, jobs=True)
             base = os.path.join(sc.dir, "w%d" % i)
             A, B = base + "/A", base + "/B"
             for root in (A, B):
@@ -114,7 +114,7 @@ def run(tier, seed):
                     viol.append(f)
     model = [ew.model_obs(m) for m in vlib.run_model(cases)]
     for case, o, m in zip(cases, obs_l, model):
-        if o != m:
+        if o != m and ew.norm_events(o) != ew.norm_events(m):          # with several workers the events come in completion order
             diffs.append({"case": case, "impl": o, "model": m})
     res.cov["evaluations"] = len(cases) * 2
     res.cov["distinct_nontrivial"] = len(nontriv)
